@@ -112,6 +112,14 @@ let handle (x : sx) : string =
   | L [A "onreset"; pk; L fs; h; n; w] ->
       let pk = pk_of_sx pk and fs = List.map formula_of_sx fs and h = nat_of_sx h and n = nat_of_sx n and w = trace_of_sx w in
       Printf.sprintf "ON %s" (show_vals (run_on_reset pk fs w h n))
+  | L [A "info"; f] ->
+      let f = formula_of_sx f in
+      Printf.sprintf "HOR %d | BF %s | PAST %s | ISBOOL %s" (int_of_nat (run_hor f)) (show_bool (run_bounded_future f))
+        (show_bool (run_past_only f)) (show_bool (run_is_bool f))
+  | L [A "sat"; f; n; w] ->
+      let f = formula_of_sx f and n = nat_of_sx n and w = trace_of_sx w in
+      Printf.sprintf "SAT %s | RHO %s | EXACT %s | ISBOOL %s" (String.concat " " (List.map show_bool (run_sat f w n)))
+        (show_vals (run_rho pk_std f w n)) (show_bool (run_exact pk_std f w n)) (show_bool (run_is_bool f))
   | _ -> failwith "unknown command"
 
 let () =
